@@ -17,6 +17,10 @@ macro "wp_forget" : tactic => `(tactic| first
   | (show Post (writeKey _ _ _) _ _; apply Post.intro; intro _ _)
   | (show Post (getAcct _) _ _; apply Post.intro; intro _ _)
   | (show Post (setAcct _ _) _ _; apply Post.intro; intro _ _)
+  | (show Post (setOwner _ _) _ _; apply Post.intro; intro _ _)
+  | (show Post (setName _ _) _ _; apply Post.intro; intro _ _)
+  | (show Post (setReward _ _) _ _; apply Post.intro; intro _ _)
+  | (show Post (setBalance _ _) _ _; apply Post.intro; intro _ _)
   | (show Post loadAcct _ _; apply Post.intro; intro _ _)
   | (show Post saveAcct _ _; apply Post.intro; intro _ _)
   | (show Post (marshalToken _) _ _; apply Post.intro; intro _ _)
